@@ -422,7 +422,7 @@ func IBBCoversFIT(txtAPI hwapi.LowLevelHardwareInterfaces, p *PreSet) (bool, err
 			if err != nil {
 				return false, nil, err
 			}
-			coversRv := addr <= uint64(fitPointer) && addr+size >= uint64(fitPointer+uint32(len(fitHeaders)*16))
+			coversRv := addr <= uint64(fitPointer) && addr+size >= uint64(fitPointer)+uint64(len(fitHeaders)*16)
 
 			if coversRv {
 				return true, nil, nil
